@@ -1,31 +1,40 @@
-"""Translator for C18: the five validator regular expressions of txdbus/marshal.py.
+r"""Translator for C18 (and every property whose model imports Gen.Validators): the character
+tables of the name / path validators of txdbus/marshal.py -> lean/TxdbusModel/Gen/Validators.lean.
 
-Reads the *compiled pattern objects* `invalid_obj_path_re`, `if_re`, `bus_re`, `mbr_re`,
-`dot_digit_re` from the working tree's txdbus.marshal and writes
-lean/TxdbusModel/Gen/Validators.lean.  The tables are derived from the BEHAVIOUR of the
-compiled patterns under the regex engine (probing every one of the 1,114,112 code points), not
-from the pattern syntax, so that a rewrite that matches the same strings (`re.ASCII`, `\\w`
-inside a class, a trailing `+`, another order of the ranges, ...) yields the same table:
+Two routes, both executed on every run, both translators source -> table (never an expected value):
 
-  * the four "character" patterns (`rx.search(n)` finds an offending character): the table is
-    the list of inclusive code-point ranges of the characters `c` with `rx.search(c) is None`
-    (= the characters the validator allows).  That the pattern really is a per-character
-    predicate (`rx.search(s)` iff some character of `s` is an offending one, nothing matches the
-    empty string) is checked on several thousand sample strings; if not -> TranslatorError.
-  * `dot_digit_re` (`rx.search(n)` finds an offending adjacent PAIR): two tables `first`,
-    `second` with `rx.search(a + b)` iff `a in first and b in second`; no single character and
-    not the empty string matches; checked as a product and on sample strings of length 3-5
-    (`rx.search(s)` iff some adjacent pair of `s` is in first x second); if not -> TranslatorError.
-
-TranslatorError (the table obligation of C18 is then broken and the pipeline widens the
-search) is therefore reserved for patterns whose behaviour has another SHAPE (anchors,
-multi-character conditions, a non-regex object), which the hand-written model cannot mirror
-through these tables anyway.
+ROUTE P (probing the public API, always possible).  A private copy of <repo>/txdbus/marshal.py is
+loaded (own module globals, so probing cannot warm a cache of the copy the harness uses) and the
+PUBLIC validators validateObjectPath / validateInterfaceName / validateBusName / validateMemberName
+(/ validateErrorName as a cross-check) are called on short strings:
+  * `<x>Allowed`  = the characters c for which the validator accepts a template that is valid for
+    every allowed c in the middle of an element ('/a'+c+'a', 'a.a'+c+'a', 'a'+c+'a'; for bus names also
+    c+'a.a', which is where ':' shows), for c over ALL of ASCII, every code point below U+0800, all
+    Unicode decimal digits and a stride sample of the rest (PROBE_POINTS);
+  * `dotDigitFirst/Second` = the adjacent pairs (x, b) of individually allowed characters for which
+    'a.a'+x+b+'a' is rejected, which must form a product F x S; the doubled separator (F x F, modelled
+    separately as the '..' rule) is taken out of S.  validateBusName must show the same pairs.
+ROUTE R (reading compiled regular expressions, a cross-check and a refinement).  The module's globals
+are scanned for re.Pattern objects WHATEVER THEIR NAMES (also behind bound `.search` methods and one
+level inside tuples / lists / dicts); each is turned into a table from its behaviour under the regex
+engine on all 1,114,112 code points (per-character test -> allowed set; adjacent-pair test ->
+first/second; see char_predicate_table / pair_tables).  A pattern whose table agrees with a probed
+table on every probe point is taken to be the one that validator uses, and ITS table (exact on all
+code points, e.g. all 680 Unicode digits of `\d`) is emitted.
+If no pattern agrees with a probed table (regexes renamed into something unscannable, replaced by
+sets / str methods, ...) the probed table itself is emitted and a sentence is appended to ADVISORIES
+(the pipeline then widens the correspondence streams instead of reporting a broken obligation).
+TranslatorError remains for: a public validator missing, a probe template that is not accepted, pair
+behaviour that is not a product, interface and bus validators disagreeing on the element-leading rule.
 """
+import bisect
+import importlib.util
+import os
 import random
 import re
 
 MODULE = 'TxdbusModel.Gen.Validators'
+ADVISORIES = []
 
 MAXCP = 0x10FFFF
 
@@ -206,47 +215,243 @@ def _wrapped(rs):
     return lines
 
 
-def tables(marshal):
+# --------------------------------------------------------------------------- route P: probing
+def _probe_points():
+    pts = set(range(0, 0x800))
+    pts.update(c for c in range(0x800, MAXCP + 1, 97))
+    pts.update(ord(ch) for ch in re.compile(r'\d').findall(_all_chars()))     # every Unicode decimal digit
+    pts.update((0x212A, 0x017F, 0x0130, 0x4E2D, 0xFF21, 0xFF3F, 0x1F600, 0x10FFFF))
+    return sorted(c for c in pts if not 0xD800 <= c <= 0xDFFF)       # lone surrogates are outside the str domain used
+
+
+_PROBE_POINTS = None
+
+
+def probe_points():
+    global _PROBE_POINTS
+    if _PROBE_POINTS is None:
+        _PROBE_POINTS = _probe_points()
+    return _PROBE_POINTS
+
+
+def load_private_copy(repo, tag):
+    """a second, independent instance of <repo>/txdbus/marshal.py (own globals)"""
+    path = os.path.join(repo, 'txdbus', 'marshal.py')
+    spec = importlib.util.spec_from_file_location('txdbus_marshal_c18probe_' + tag, path)
+    mod = importlib.util.module_from_spec(spec)
+    spec.loader.exec_module(mod)
+    return mod
+
+
+def _accepts(fn, s):
+    try:
+        fn(s)
+        return True
+    except Exception:
+        return False
+
+
+def _validator(mod, name):
+    fn = getattr(mod, name, None)
+    if not callable(fn):
+        raise TranslatorError('public validator txdbus.marshal.%s no longer exists' % name)
+    return fn
+
+
+def probe_allowed(fn, templates, what):
+    """{c in PROBE_POINTS : fn accepts one of the templates with c inserted}"""
+    for pre, post in templates[:1]:
+        if not _accepts(fn, pre + 'a' + post) or not _accepts(fn, pre + 'Z' + post):
+            raise TranslatorError('%s: probe template %r rejected, the table cannot be derived' % (what, pre + 'a' + post))
+    out = set()
+    for c in probe_points():
+        ch = chr(c)
+        for pre, post in templates:
+            if _accepts(fn, pre + ch + post):
+                out.add(c)
+                break
+    return out
+
+
+def probe_pairs(fn, allowed_mid, what):
+    """adjacent pairs (x, b) of characters that are fine alone in the middle of 'a.a?a' but rejected together"""
+    chars = sorted(allowed_mid)
+    bad = set()
+    for x in chars:
+        for b in chars:
+            if not _accepts(fn, 'a.a' + chr(x) + chr(b) + 'a'):
+                bad.add((x, b))
+    F = {x for x, _ in bad}
+    S = {b for _, b in bad}
+    if bad != {(x, b) for x in F for b in S}:
+        raise TranslatorError('%s: the rejected adjacent pairs are not a product first x second' % what)
+    return F, S
+
+
+def probe_route(repo):
     t = {}
-    for lean_name, attr in (('objPath', 'invalid_obj_path_re'), ('iface', 'if_re'),
-                            ('bus', 'bus_re'), ('member', 'mbr_re')):
-        if not hasattr(marshal, attr):
-            raise TranslatorError('txdbus.marshal.%s no longer exists' % attr)
-        t[lean_name] = (attr, char_predicate_table(attr, getattr(marshal, attr)))
-    if not hasattr(marshal, 'dot_digit_re'):
-        raise TranslatorError('txdbus.marshal.dot_digit_re no longer exists')
-    t['dotDigit'] = ('dot_digit_re', pair_tables('dot_digit_re', marshal.dot_digit_re))
+    m = load_private_copy(repo, 'path')
+    t['objPath'] = probe_allowed(_validator(m, 'validateObjectPath'), [('/a', 'a')], 'validateObjectPath')
+    m = load_private_copy(repo, 'member')
+    t['member'] = probe_allowed(_validator(m, 'validateMemberName'), [('a', 'a')], 'validateMemberName')
+    m = load_private_copy(repo, 'iface')
+    fi = _validator(m, 'validateInterfaceName')
+    t['iface'] = probe_allowed(fi, [('a.a', 'a')], 'validateInterfaceName')
+    F, S = probe_pairs(fi, {c for c in t['iface'] if c < 0x800}, 'validateInterfaceName')
+    m = load_private_copy(repo, 'bus')
+    fb = _validator(m, 'validateBusName')
+    bus_mid = probe_allowed(fb, [('a.a', 'a')], 'validateBusName')
+    t['bus'] = bus_mid | probe_allowed(fb, [('a.a', 'a'), ('', 'a.a')], 'validateBusName')
+    Fb, Sb = probe_pairs(fb, {c for c in bus_mid if c < 0x800}, 'validateBusName')
+    common = {c for c in t['iface'] if c < 0x800} & bus_mid
+    if (F & common, (S - F) & common) != (Fb & common, (Sb - Fb) & common):
+        raise TranslatorError('validateInterfaceName and validateBusName reject different (separator, element-leading) '
+                              'pairs: one dot-digit table cannot describe both (%r vs %r)'
+                              % (sorted(map(chr, (S - F) & common)), sorted(map(chr, (Sb - Fb) & common))))
+    t['first'], t['second'] = F, S - F          # F x F is the doubled-separator rule, modelled on its own
+    # validateErrorName: same accept set as validateInterfaceName on the probe strings (not a table; a cross-check)
+    m = load_private_copy(repo, 'error')
+    fe = _validator(m, 'validateErrorName')
+    fi2 = _validator(m, 'validateInterfaceName')
+    for c in sorted(t['iface'] | set(range(128))):
+        s = 'a.a' + chr(c) + 'a'
+        if _accepts(fe, s) != _accepts(fi2, s):
+            ADVISORIES.append('validateErrorName and validateInterfaceName differ on %r' % s)
+            break
     return t
 
 
+# --------------------------------------------------------------------------- route R: compiled patterns
+def find_patterns(mod):
+    """(where, pattern) for every re.Pattern reachable from the module's globals, whatever the name"""
+    found, seen = [], set()
+
+    def add(where, v, depth):
+        if isinstance(v, re.Pattern):
+            if id(v) not in seen and isinstance(v.pattern, str):
+                seen.add(id(v))
+                found.append((where, v))
+        elif isinstance(getattr(v, '__self__', None), re.Pattern):
+            add(where + '.__self__', v.__self__, depth)
+        elif depth < 2 and isinstance(v, (tuple, list, set, frozenset)):
+            for k, x in enumerate(v):
+                add('%s[%d]' % (where, k), x, depth + 1)
+        elif depth < 2 and isinstance(v, dict):
+            for k, x in v.items():
+                add('%s[%r]' % (where, k), x, depth + 1)
+
+    for name in sorted(vars(mod)):
+        if not name.startswith('__'):
+            add(name, vars(mod)[name], 0)
+    return found
+
+
+def _restrict(ranges, pts):
+    """{c in pts : c in ranges}, pts sorted"""
+    out = set()
+    for lo, hi in ranges:
+        a = bisect.bisect_left(pts, lo)
+        b = bisect.bisect_right(pts, hi)
+        out.update(pts[a:b])
+    return out
+
+
+def regex_route(repo):
+    """-> (char tables [(where, pattern text, allowed ranges)], pair tables [(where, text, first, second)], skipped)"""
+    mod = load_private_copy(repo, 'regex')
+    chars, pairs, skipped = [], [], []
+    for where, rx in find_patterns(mod):
+        try:
+            if rx.search('') is None and any(rx.search(chr(c)) for c in range(128)):
+                chars.append((where, rx.pattern, char_predicate_table(where, rx)))
+            else:
+                f, s2 = pair_tables(where, rx)
+                pairs.append((where, rx.pattern, f, s2))
+        except TranslatorError as e:
+            skipped.append('%s = %r: %s' % (where, rx.pattern, e))
+    return chars, pairs, skipped
+
+
+# --------------------------------------------------------------------------- both routes
+_KINDS = (('objPath', 'validateObjectPath'), ('iface', 'validateInterfaceName'),
+          ('bus', 'validateBusName'), ('member', 'validateMemberName'))
+
+
+def tables(repo):
+    """-> {'objPath'|'iface'|'bus'|'member': (ranges, source), 'dotDigit': (first, second, source)}"""
+    del ADVISORIES[:]
+    P = probe_route(repo)
+    try:
+        chars, pairs, skipped = regex_route(repo)
+    except Exception as e:          # the regex reading is a cross-check; the probe stands
+        chars, pairs, skipped = [], [], ['regex route failed: %r' % (e,)]
+    pts = probe_points()
+    t = {}
+    for kind, fn in _KINDS:
+        hit = [(w, pat, tab) for w, pat, tab in chars if _restrict(tab, pts) == P[kind]]
+        if hit:
+            w, pat, tab = hit[0]
+            t[kind] = (tab, 'compiled pattern %s = %r (agrees with %s on all %d probe points)' % (w, pat, fn, len(pts)))
+        else:
+            t[kind] = (_ranges_of_set(P[kind]), 'probing %s' % fn)
+            ADVISORIES.append('allowed characters of %s: no compiled regular expression in txdbus.marshal reproduces the '
+                              'probed behaviour (patterns seen: %s); the table was derived by probing the public validator '
+                              'on %d code points (all below U+0800, all decimal digits, a stride sample above)'
+                              % (fn, ', '.join('%s=%r' % (w, pat) for w, pat, _ in chars) or 'none', len(pts)))
+    A = sorted(c for c in P['iface'] if c < 0x800)
+    hit = [(w, pat, f, s2) for w, pat, f, s2 in pairs
+           if _restrict(f, A) == P['first'] and _restrict(s2, A) - P['first'] == P['second']]
+    if hit:
+        w, pat, f, s2 = hit[0]
+        t['dotDigit'] = (f, s2, 'compiled pattern %s = %r (agrees with validateInterfaceName / validateBusName on all pairs '
+                                'of allowed characters)' % (w, pat))
+    else:
+        t['dotDigit'] = (_ranges_of_set(P['first']), _ranges_of_set(P['second']), 'probing validateInterfaceName / validateBusName')
+        ADVISORIES.append('element-leading rule (separator, digit): no compiled two-step regular expression in txdbus.marshal '
+                          'reproduces the probed behaviour (patterns seen: %s); the tables were derived by probing all pairs of '
+                          'allowed characters' % (', '.join('%s=%r' % (w, pat) for w, pat, _, _ in pairs) or 'none'))
+    t['skipped'] = skipped
+    return t
+
+
+def object_path_allowed(repo):
+    """For other translators (e.g. Gen.C17Props) that need the object-path character class: the same
+    two-route derivation, independent of the private name `invalid_obj_path_re`.  -> inclusive ranges"""
+    saved = list(ADVISORIES)
+    try:
+        return list(tables(repo)['objPath'][0])
+    finally:
+        ADVISORIES[:] = saved
+
+
 def emit(repo):
-    from txdbus import marshal
-    t = tables(marshal)
+    t = tables(repo)
     out = []
     out.append('/-')
-    out.append('GENERATED by tools/tables/c18_validators.py from the compiled regular expressions in')
-    out.append('txdbus/marshal.py of the repository under test.  Do not edit: regenerated on every run.')
-    out.append('The tables describe the BEHAVIOUR of the patterns under the regex engine (every code point')
-    out.append('probed), so they do not depend on how a pattern is spelled.')
+    out.append('GENERATED by tools/tables/c18_validators.py from txdbus/marshal.py of the repository under test.')
+    out.append('Do not edit: regenerated on every run.  The tables describe BEHAVIOUR: the public validators are')
+    out.append('probed, and a compiled regular expression found in the module (under whatever name) that reproduces')
+    out.append('the probed behaviour supplies the exact table over all code points.')
     out.append('')
-    out.append('`<x>Allowed`: inclusive code-point ranges of the characters `c` for which `<re>.search(c)` is')
-    out.append('None, i.e. the characters the validator allows (it rejects when `search` finds any other).')
-    out.append('`dotDigitFirst` / `dotDigitSecond`: `dot_digit_re.search` finds a character of the first table')
-    out.append('immediately followed by one of the second.')
+    out.append('`<x>Allowed`: inclusive code-point ranges of the characters the validator allows (it rejects when any')
+    out.append('other character occurs).  `dotDigitFirst` / `dotDigitSecond`: a character of the first table')
+    out.append('immediately followed by one of the second is rejected (element beginning with a digit).')
     out.append('-/')
     out.append('namespace Txdbus.Gen.Validators')
     out.append('')
+    names = {'objPath': 'validateObjectPath', 'iface': 'validateInterfaceName / validateErrorName',
+             'bus': 'validateBusName', 'member': 'validateMemberName'}
     for lean_name in ('objPath', 'iface', 'bus', 'member'):
-        attr, allowed = t[lean_name]
-        out.append('/-- allowed characters of `txdbus.marshal.%s` -/' % attr)
+        allowed, _src = t[lean_name]
+        out.append('/-- allowed characters of `%s` -/' % names[lean_name])
         if len(allowed) <= 8:
             out.append('def %sAllowed : List (Nat × Nat) := %s' % (lean_name, _lean_ranges(allowed)))
         else:
             out.append('def %sAllowed : List (Nat × Nat) :=' % lean_name)
             out.extend(_wrapped(allowed))
         out.append('')
-    attr, (first, second) = t['dotDigit']
-    out.append('/-- first and second character of a match of `txdbus.marshal.%s` -/' % attr)
+    first, second, _src = t['dotDigit']
+    out.append('/-- separator and element-leading character that interface / well-known bus names reject as a pair -/')
     out.append('def dotDigitFirst : List (Nat × Nat) :=')
     out.extend(_wrapped(first))
     out.append('def dotDigitSecond : List (Nat × Nat) :=')
@@ -258,4 +463,16 @@ def emit(repo):
 
 if __name__ == '__main__':
     import sys
-    print(emit(sys.argv[1] if len(sys.argv) > 1 else '/repo'))
+    import time
+    _repo = sys.argv[1] if len(sys.argv) > 1 else '/repo'
+    sys.path.insert(0, _repo)
+    _t0 = time.time()
+    _t = tables(_repo)
+    for _k in ('objPath', 'iface', 'bus', 'member'):
+        print(_k, _t[_k][0] if len(_t[_k][0]) < 10 else '%d ranges' % len(_t[_k][0]), '<-', _t[_k][1])
+    print('dotDigit', _t['dotDigit'][0], '%d ranges' % len(_t['dotDigit'][1]), '<-', _t['dotDigit'][2])
+    for _a in ADVISORIES:
+        print('ADVISORY', _a)
+    for _a in _t['skipped']:
+        print('skipped', _a)
+    print('%.2f s' % (time.time() - _t0))
